@@ -232,5 +232,31 @@ Proof.
   destruct Hty as [->|[Hty _]]; [done|]. exfalso. apply Hni. apply elem_of_inputs. eauto.
 Qed.
 
+(* exactly one output: the model keys the minimal cover by `supergate.outputs().pop()` and has no value (BadOrder) when a
+   supergate has not exactly one output, because the Python result would then depend on the iteration order of a set *)
+Lemma out_of_single s o : out_of s = Some o → size (outputs (c_g s)) = 1.
+Proof.
+  unfold out_of. destruct (elements (outputs (c_g s))) as [|a [|b r]] eqn:E; try done. intros _.
+  unfold size, set_size. simpl. by rewrite E.
+Qed.
+Lemma keyed_single l m : keyed l = Some m → Forall (λ s, size (outputs (c_g s)) = 1) l.
+Proof.
+  unfold keyed. intros H. apply bind_Some in H as (l' & Hl' & _). apply mapM_Some in Hl'.
+  induction Hl' as [|s p l l' Hp _ IH]; constructor; [|done].
+  apply fmap_Some in Hp as (o & Ho & _). by eapply out_of_single.
+Qed.
+Theorem supergates_single_output L sgs : supergates L = Ok sgs → Forall (λ sg, size (outputs (c_g sg)) = 1) sgs.
+Proof.
+  unfold supergates. destruct (minimal_supergates L) as [m| | |] eqn:Em; unfold rbind; try done.
+  destruct (kahn (S (length m)) L m []) as [l|] eqn:Ek; [|done]. intros [= <-].
+  assert (Forall (λ s, size (outputs (c_g s)) = 1) m.*2) as Hm.
+  { unfold minimal_supergates in Em. destruct (has_bb L); [done|].
+    destruct (dedupe _ []) as [all|]; [|done]. destruct (keyed _) as [m'|] eqn:Ekd; [|done].
+    injection Em as <-. rewrite (keyed_snd _ _ Ekd). by eapply keyed_single. }
+  rewrite Forall_forall in Hm |- *. intros sg ([o s] & -> & Hp)%elem_of_list_fmap. simpl.
+  destruct (kahn_sub _ _ _ _ _ Ek _ Hp) as [Hin|Hin]; [|by apply elem_of_nil in Hin].
+  apply Hm. by apply (elem_of_list_fmap_1 snd) in Hin.
+Qed.
+
 (* the ordering clause holds for the list the model returns whenever the model's own Kahn order passes the checker;
    the model order is not compared with the implementation's (sets of Circuit objects iterate by id) *)
